@@ -34,6 +34,19 @@ def current() -> typing.Optional['Kernel']:
     return _KERNEL
 
 
+IMPORT_SENSITIVE = ('forml/setup/_importer.py',)
+
+
+def _under_import(frame) -> bool:
+    """Is the import machinery below this frame (i.e. does the interpreter hold an import lock for this thread)?"""
+    frame = frame.f_back
+    while frame is not None:
+        if frame.f_code.co_filename.startswith('<frozen importlib'):
+            return True
+        frame = frame.f_back
+    return False
+
+
 class Deadlock(BaseException):
     """No task runnable and no timer pending."""
 
@@ -336,6 +349,8 @@ class Kernel:
             if event != 'call':
                 return None
             filename = frame.f_code.co_filename
+            if filename.endswith(IMPORT_SENSITIVE) and _under_import(frame):
+                return None  # called BY the import system (finder / loader hooks): an import lock is held - no parking here
             if not filename.endswith(files):
                 if entry_files and filename.endswith(entry_files) and not task.nopreempt:
                     kernel._preempt(task, frame)
